@@ -55,6 +55,10 @@ CHECKS = {
    technique="TLC model checking of AnkoCli.tla (phases flags/setup/read/execute/exit) + TLC validation of observations of the built ./anko (exit status, stdout) against the library verdict for the same source obtained in a child process",
    text="The command's small state machine is model-checked exhaustively; the real binary is built from the working tree and run over several hundred scripts (succeeding, failing at parse time, failing at run time, printing, using args) in both supply modes and with unreadable files, and every observation must be what the machine demands given vm.Execute's verdict in an equally prepared environment.",
    note="Trusted: TLC; stdout abstracted to (prefix equal to the library run's output, number of further lines). Interactive mode, -e \"\" and diagnostic texts are not asserted. Bounds: ~600 (quick) / ~3.5k (thorough) process launches."),
+ "C15": dict(level="model_checking", design="5 (C15), 3.7",
+   technique="TLC model checking of AnkoLexer.tla (scanner with offset/lineHead/line bookkeeping) against its declarative characterisation for all strings of bounded alphabets + replay of every token stream through the real Scanner.Scan + TLC validation of ParseSrc observations (totality, error position range, determinism, composition)",
+   text="The scanner is specified as it is written (two-character lookahead by next/peek/back, numbers, strings, raw strings, comments) and TLC shows for every bounded string that line/column bookkeeping is exact, every scan makes progress and reported positions lie inside the input; the real scanner must produce the same token kinds, positions and internal state after each token. ParseSrc itself is exercised on those strings, a grammar corpus, all truncations, deletions, random bytes and deep nestings under a watchdog, and all ordered pairs of a pool of valid programs are checked for composition with shifted positions.",
+   note="Trusted: TLC; one representative rune per character class; the goyacc LALR driver is exercised, not modelled (exploration for that part). Bounds: all strings <= 4 over 20 classes, <= 6-8 over four 6-8 class sub-alphabets; ~13k (quick) parse inputs and ~15k composition pairs."),
 # <<ADD>>
 }
 
